@@ -34,6 +34,13 @@ def case_hash(case) -> str:
     return hashlib.sha256(json.dumps(case, sort_keys=True, default=repr).encode()).hexdigest()[:16]
 
 
+def case_limit(case, default: float) -> float:
+    """Per-case wall-clock limit: a case may carry its own "wall_limit" (seconds), otherwise the module's CASE_TIMEOUT."""
+    if isinstance(case, dict) and isinstance(case.get("wall_limit"), (int, float)):
+        return float(case["wall_limit"])
+    return default
+
+
 def load_prop(prop: str):
     return importlib.import_module(f"props.{prop}")
 
@@ -220,7 +227,8 @@ def run_property(prop, seed, tier, budget, jobs, out_path):
                 break
             # per-case wall-clock limit
             for k, w in enumerate(workers):
-                if w.case is not None and time.time() - w.started > timeout:
+                limit = case_limit(w.case, timeout) if w.case is not None else timeout
+                if w.case is not None and time.time() - w.started > limit:
                     case = w.case
                     w.kill()
                     workers[k] = Worker(ctx, prop)
@@ -228,7 +236,7 @@ def run_property(prop, seed, tier, budget, jobs, out_path):
                         res["evaluations"] += 1
                         res["distinct_nontrivial"] += 1
                         record_failure(case, common.fail("timeout", "every public operation terminates within bounded work",
-                                                         f"case did not finish within {timeout} s"))
+                                                         f"case did not finish within {limit} s"))
                     else:
                         res["skipped_timeouts"] += 1
     finally:
@@ -267,7 +275,7 @@ def replay(path):
         data = json.load(fh)
     prop, case = data["property"], data["case"]
     mod = load_prop(prop)
-    timeout = float(getattr(mod, "CASE_TIMEOUT", DEFAULT_CASE_TIMEOUT)) * 2
+    timeout = case_limit(case, float(getattr(mod, "CASE_TIMEOUT", DEFAULT_CASE_TIMEOUT))) * 2
     ctx = mp.get_context("fork")
     parent, child = ctx.Pipe()
     p = ctx.Process(target=_replay_child, args=(prop, case, child), daemon=True)
